@@ -80,9 +80,15 @@ func SocketFns(p *Program) []*SocketFn {
 		w := NewWalker(p)
 		w.LoopFuel = bound(2, 3)
 		w.Inline = inlineHelpers([]*ssa.Package{up}, nil)
-		args := make([]*Term, len(fn.Params))
+		args := symbolicArgs(fn)
 		for i, prm := range fn.Params {
-			args[i] = &Term{Op: "param", Name: prm.Name(), Typ: prm.Type()}
+			// the request bytes, whatever the parameter is called in the source
+			if sl, ok := prm.Type().Underlying().(*types.Slice); ok && i > 0 {
+				if b, ok := sl.Elem().Underlying().(*types.Basic); ok && b.Kind() == types.Uint8 {
+					args[i].Name = "request"
+					break
+				}
+			}
 		}
 		sf.Paths = w.Walk(fn, args, nil)
 		for _, pa := range sf.Paths {
